@@ -15,6 +15,8 @@ ASSUMPTIONS = ["the Go scheduler actually runs W runnable goroutines (the lower 
 
 def corpus():
     return [
+        "progress.stress 8 60000 0 0 rising",              # C04k: every record a new maximum / minimum: no recorder may get stuck publishing it
+        "progress.stress 16 30000 3 0 rising",
         "pool.usable 8 150", "pool.usable 2 200", "pool.usable 16 60",
         "pool.usable 160 12", "pool.usable 300 8", "pool.usable 129 10",       # pools larger than any round number a wake-up budget might use
         "run prop=C04 mode=constant rate=200/100ms dur=400 conc=200 body=250 expectfull=1",
